@@ -93,21 +93,14 @@ macro "res_split" t:term : tactic => `(tactic|
    rcases r with (_ | _ | _)
    all_goals try (simp only [Res.bind_val, Res.bind_rte, Res.bind_exc, Res.pure_eq])))
 
-theorem callsign_tie (m : Msg) (h : IsHex m) (hl : 10 ≤ m.length) :
-    Gen.bds08.callsign (.str m) = (PyModeS.callsign (hex2binM m) >>= fun s => .val (.str s)) := by
-  unfold Gen.bds08.callsign PyModeS.callsign
-  generalize hc : String.toList _ = chars
-  have hc' : Tables.callsignChars = chars := hc
-  rw [hc']
-  clear hc hc'
-  simp only [typecode_str' m h hl, Res.bind_val, hex2bin_str m h (ne_nil_of_le hl)]
-  generalize tcB (hex2binM m) = o
-  rcases o with _ | tc
-  · simp [Val.ofOptNat]
-  · have e8 : List.range 8 = [0, 1, 2, 3, 4, 5, 6, 7] := by decide
-    simp only [Val.ofOptNat, chars8, e8, mapM_cons, mapM_nil, pySliceNN_ofBits, Res.bind_val, bin2int_ofBits,
-      bind_assoc, pyIdx_str_ofNat]
-    generalize slice 40 96 (hex2binM m) = cs
-    trace_state
-    sorry
+/- `callsign_tie` (NOT FINISHED, statement believed true):
+     Gen.bds08.callsign (.str m) = (PyModeS.callsign (hex2binM m) >>= fun s => .val (.str s))   for 10 ≤ m.length.
+   Plan that elaborates: `unfold Gen.bds08.callsign PyModeS.callsign; generalize hc : String.toList _ = chars;
+   have hc' : Tables.callsignChars = chars := hc; rw [hc']`, then `typecode_str'`, `hex2bin_str`, `chars8` unfolded with
+   `mapM_cons`/`mapM_nil` on `List.range 8 = [0,…,7]`, `pyIdx_str_ofNat`, `pyAdd_str`, `pyReplace_remove`, and `res_split`
+   on the eight `bin2intR (slice …)` / `idxR chars …` pairs.  Obstacle: after `hex2bin_str` is rewritten, the proof term
+   of `simp only [Res.bind_val]` (substituting `msgbin`/`csbin`, used eight times) hits a *kernel* deterministic timeout
+   (elaboration is fine); it needs a formulation that avoids the substitution (e.g. a helper lemma for one
+   `cs + chars[bin2int(csbin[a:b])]` step stated on `Val.ofBits cs`). -/
+
 end PyModeS.Tie
